@@ -132,6 +132,18 @@ CHECKS["C11"] = dict(
     design_ref="DESIGN.md §5 C11",
     note="Trusted: Coq kernel + Reals axioms; femmcli Lua route; tolerances 3e-6 (fields) / 2e-5 (terminal quantities) relative.",
     technique="Coq proof (linearity, symmetry => reciprocity) + superposition/reciprocity run relations on identical meshes")
+CHECKS["C13"] = dict(
+    category="proof",
+    text=("Coq theorems: the selection after any sequence of block selections depends only on the parity of each label's count "
+          "(order and repetition irrelevant); the block integral is the sum of the selected elements' terms, additive over "
+          "disjoint selections, independent of element order; discrete Green identity (sum of element areas = shoelace of the "
+          "boundary, all edge-manifold element sets); W = 1/2 sum V_c Q_c when the free rows hold. Real runs through femmcli on "
+          "generated problems: I(A)+I(B) = I(A u B), order and toggle independence for every extensive integral of the three "
+          "post-processors, block area/volume vs the drawn (revolved) regions, energy vs 1/2 sum VQ, 1/2 int A.J, coenergy. "
+          "Partial: per-element integrands are tied to the code by C12, contour integrals only through the area/length checks."),
+    design_ref="DESIGN.md §5 C13",
+    note="Trusted: Coq kernel + Reals axioms; femmcli Lua route; tolerances 1e-9 (additivity, geometry), 2e-5 (energy vs terminals).",
+    technique="Coq proof (toggle parity, sum additivity, discrete Green, energy identity) + integral run relations")
 PENDING = {}
 def main():
     props = [json.loads(l) for l in open(os.path.join(V, "properties.jsonl"))]
